@@ -6,7 +6,7 @@ CHECK = {
                     "ASan red zones around exact-size heap blocks observe out-of-bounds accesses"],
     "harnesses": [{
         "name": "c18_bytebuffer", "src": "harness/c18_bytebuffer.c", "shape": "estate",
-        "lib": ["src/byte-buffer.c"], "shards": 1, "min_outcomes": 10,
+        "lib": ["src/byte-buffer.c"], "shards": 8, "opt": "-O2", "min_outcomes": 10,
         "require_outcomes": {"any": ["rewind-moves", "add-refused", "consume-refused", "atmost-short", "set-refused"]},
     }],
 }
